@@ -392,22 +392,28 @@ PROPS["C13"] = dict(
                "setters, the materialised list is the parse of the raw query unless a searchParams change emptied it), C13_search_lists_params (then "
                "search is '' or '?'+query and searchParams lists exactly the pairs of that query; uses C12's parse(serialize l) = l), "
                "C13_serialisers_agree, C13_host_is_hostname_port (all host strings), C13_default_port_never_shown (invariant over all histories of "
-               "port/protocol/host/hostname/href assignments), C13_tables_from_source, C13_source_tie",
+               "port/protocol/host/hostname/href assignments), C13_search_/C13_href_assignment_takes_effect and C13_params_change_takes_effect (what search, "
+               "searchParams and href read right after each kind of assignment, from every state - the functional half of the property), "
+               "C13_tables_from_source, C13_source_tie",
     level_note="Proof is about Model/UrlObject.v: the Go url.URL fields the property talks about + the lazily synchronised list, setters and getters "
                "as written. net/url's Parse/String, ParseRequestURI, strings.ToLower, idna and path.Clean are parameters of the model (the host "
                "invariant assumes that accepted hosts have a 'plain' name part and that lower-casing/IDNA keep it plain; both observed at run time). "
                "'href parses again to the same href' and 'unparsable assignments are ignored' rest on net/url and are decided by the run-time oracle only. "
                "Tie: Gen/UrlGlue.v (port/protocol tables, text of 16 functions, shape of the three serialisers) + differential histories with every "
-               "getter read after every step.",
+               "getter read after two thirds of the steps (the others are made blind, so that a step meets whatever the previous one left unread).",
     rule="base URL from 22 forms (schemes http/https/ws/wss/ftp/file/custom, userinfo, IPv6 literals with and without default port, IDN, empty and odd "
          "queries) x 1-7 operations from search/href/searchParams.append/delete/set/sort/port/protocol/host/hostname/hash/pathname with benign and "
-         "hostile values, searchParams obtained before or after, list read at random steps; non-trivial = at least 2 operations; distinct by hash",
+         "hostile values, searchParams obtained before or after, list read at random steps, a third of the query/hash/path/userinfo steps blind; "
+         "non-trivial = at least 2 operations; distinct by hash",
     codes={"Diff1": "search differs from the model", "Diff2": "host differs", "Diff3": "hostname differs", "Diff4": "port differs", "Diff5": "protocol differs",
            "Diff6": "searchParams list differs", "Diff7": "throw/no-throw differs", "Diff8": "observation count", "Diff9": "model rejects the base URL",
            "Diff11": "initial search differs", "Diff12": "initial host differs", "Diff13": "initial hostname differs", "Diff14": "initial port differs",
            "Diff15": "initial protocol differs", "Diff16": "initial list differs",
            "SpecFail1": "href, toString() and toJSON() differ", "SpecFail2": "search is not ''/'?'+query, or searchParams does not list the pairs of that query",
            "SpecFail3": "host is not hostname[':'port]", "SpecFail4": "the default port of the scheme is shown", "SpecFail5": "the query inside href is not the one search reports",
+           "SpecFail6": "right after url.search was assigned, the pairs read back (searchParams, or the query search shows) are not those of the assigned query",
+           "SpecFail7": "right after an accepted url.href assignment, the pairs read back are not those of the assigned URL's query",
+           "SpecFail8": "right after a searchParams change, the list is not that change applied to the list read just before",
            "Implhref-does-not-reparse-to-itself": "new URL(u.href) throws or gives a different href", "Implconstructor-threw": "a base URL of the generator was rejected",
            "Implstep-failed": "harness step failed"},
     trusted=["net/url (Parse, String, ParseRequestURI, Port), golang.org/x/net/idna, strings.ToLower, path.Clean: evaluated by the harness with the same "
